@@ -4,6 +4,7 @@
 package c11
 
 import (
+	"path/filepath"
 	"os"
 	"context"
 	"encoding/base64"
@@ -101,6 +102,21 @@ func build(s TokSpec) builtTok {
 		hdr["kid"] = "nosuchkey"
 		raw = otherKey
 		b.mustFail = true
+	case "kid-sibling-dir": // a key that exists, but outside the key directory (prefix-named sibling)
+		hdr["kid"] = "../keys.bak/evil"
+		raw = env.EvilKey
+		b.mustFail = true
+	case "kid-abs-path":
+		hdr["kid"] = filepath.Join(env.Dir, "keys.bak", "evil")
+		raw = env.EvilKey
+		b.mustFail = true
+	case "kid-parent-file": // the pool key file addressed as a named key
+		hdr["kid"] = "../pool_key"
+		raw = env.PoolKey
+		b.mustFail = true
+	case "kid-dotdot-same": // a path that leaves and re-enters the key directory
+		hdr["kid"] = "../keys/" + env.KeyID
+		b.either = true
 	}
 	pl := map[string]any{"iss": env.Issuer, "jti": "j1"}
 	switch s.Sub {
@@ -157,7 +173,7 @@ func build(s TokSpec) builtTok {
 	return b
 }
 
-var keyKinds = []string{"named", "pool-nokid", "pool-kid", "other", "unknown-kid"}
+var keyKinds = []string{"named", "pool-nokid", "pool-kid", "other", "unknown-kid", "kid-sibling-dir", "kid-abs-path", "kid-parent-file", "kid-dotdot-same"}
 var subKinds = []string{"ok", "absent", "empty", "number"}
 var expKinds = []string{"future", "absent", "past", "edge-", "edge+", "string", "float"}
 var iatKinds = []string{"recent", "absent", "old", "edge-", "edge+", "string", "future"}
@@ -679,6 +695,10 @@ func refVerify(tok string) (accept bool, fuzzy bool) {
 	case env.KeyID:
 		raw = env.RawKey
 	default:
+		keys := filepath.Join(env.Dir, "keys")
+		if filepath.Clean(filepath.Join(keys, kid)) == filepath.Join(keys, env.KeyID) {
+			return false, true // another spelling of a key the verifier holds: either verdict is defensible
+		}
 		return false, false
 	}
 	_, want := kit.RefSignParts(raw, pool, parts[0], parts[1])
